@@ -41,6 +41,8 @@ def demo_cmd(wt, demo, out):
         flags = "-std=c++20 -O1 -g"
     if m and "-DNDEBUG" in m.group(1):
         flags += " -DNDEBUG"
+    if m and "-fno-sanitize=vptr" in m.group(1):
+        flags += " -fno-sanitize=vptr"
     return f"g++ {flags} -I{wt}/include {demo} {' '.join(srcs)} -lpthread -o {out}"
 
 
